@@ -37,8 +37,22 @@ Theorem C19_sliced_removes_only_other_parties : forall keep rules fuel r full,
 Proof. intros keep rules. exact (islice_removed_invisible (visible keep) rules). Qed.
 Print Assumptions C19_sliced_removes_only_other_parties.
 
+(* every interaction of the sliced protocol is what the kept parties see of some interaction of the full protocol (hp: no member of a
+   sequence is infeasible).  The converse does not hold and is not claimed: slicing DROPS an alternative made of other parties' messages
+   only, it does not turn it into the empty sequence. *)
+Theorem C19_sliced_interactions_are_visible_parts : forall keep rules fuel r m full,
+  islice fuel (visible keep) rules r = Some (Some m) -> inline fuel rules r = Some full -> hp full = true ->
+  forall w, lang msg msg macc m w -> exists w', lang msg msg macc full w' /\ filter (visible keep) w' = w.
+Proof. intros keep rules. exact (islice_sound (visible keep) rules). Qed.
+Print Assumptions C19_sliced_interactions_are_visible_parts.
+
 (* non-vacuity: <start> ::= <A:B:x> (<C:A:y> | <C:B:z>) <t> ; <t> ::= <B:A:u>?   sliced to {A, B} *)
 Example C19_slice_nonvacuous :
   islice 9 (visible ["A"; "B"]) [("<start>", Cat [Ref "A:B:<x>"; Alt [Ref "C:A:<y>"; Ref "C:B:<z>"]; Ref "<t>"]); ("<t>", Rep (Ref "B:A:<u>") 0 (Some 1))] (Ref "<start>")
   = Some (Some (RCat _ (RAtom _ "A:B:<x>") (RCat _ (RRep _ (RAtom _ "B:A:<u>") 0 (Some 1)) (REps _)))).
+Proof. vm_compute. reflexivity. Qed.
+
+Example C19_slice_sound_nonvacuous :
+  option_map hp (inline 9 [("<start>", Cat [Ref "A:B:<x>"; Alt [Ref "C:A:<y>"; Ref "C:B:<z>"]; Ref "<t>"]); ("<t>", Rep (Ref "B:A:<u>") 0 (Some 1))] (Ref "<start>"))
+  = Some true.
 Proof. vm_compute. reflexivity. Qed.
